@@ -13,6 +13,8 @@ RULE = ("the typed DiameterRequest/DiameterAnswer subclasses under bromelia.lib 
         "must raise a library error; distinct = (class, set of supplied arguments, extras)")
 
 
+from bvm.msggen import _tab
+
 def lib_error(ex):
     return type(ex).__module__ == "bromelia.exceptions"
 
@@ -24,6 +26,10 @@ def check_plan(acc, g, plan):
     try:
         msg = plan.build()
     except BaseException as ex:
+        if not lib_error(ex):
+            # not a refusal by the library but an accident inside the constructor: this valid assignment builds no message at all
+            acc.violation("valid-arguments-raise-%s:%s" % (type(ex).__name__, cname), "%s(%s) raised %r" % (cname, ", ".join(sorted(plan.kwargs)), ex), wit)
+            return False
         acc.observe("valid-arguments-rejected:%s:%s" % (cname, type(ex).__name__))
         acc.extra.setdefault("rejected_samples", [])
         if len(acc.extra["rejected_samples"]) < 5:
@@ -82,7 +88,7 @@ def check_plan(acc, g, plan):
                     acc.violation(key, "position %d (argument %s): wire %s, expected %s" % (i, e["arg"], got.hex()[:80], want.hex()[:80]), wit)
     # mandatory AVPs exactly once
     codes = [(l.vendor, l.code) for l in lm.avps]
-    for name, mcls in cls.mandatory.items():
+    for name, mcls in _tab(cls, "mandatory").items():
         row = rd[mcls.__name__]
         n = codes.count((row["vendor"], row["code"]))
         extra_same = sum(1 for e in exp if e["source"] in ("extra-kwarg", "supplied-untabled") and e["lavp"] is not None
@@ -142,7 +148,12 @@ def static_checks(acc):
         import re as _re
         from bvm import refdict as _RD
         by_snake = {"_".join(_re.findall("[A-Z0-9][^A-Z]*", n[:-3])).lower(): n for n in _RD.load()["avps"]}
-        for tab in (cls.mandatory, cls.optionals):
+        for which in ("mandatory", "optionals"):
+            tab = getattr(cls, which, None)
+            if not isinstance(tab, dict):
+                # the constructors read both tables: what a class without one does is judged where messages are built
+                acc.observe("class-without-%s-table:%s.%s" % (which, lib, cls.__name__))
+                continue
             for arg, tcls in tab.items():
                 key_ = arg.lstrip("_")
                 conv = by_snake.get(key_)
@@ -162,8 +173,8 @@ def static_checks(acc):
             acc.observe("class-without-frozen-tables:%s.%s" % key)
         else:
             now = {"params": params, "required": sorted(msggen.required_args(cls)),
-                   "mandatory": {k: v.__name__ for k, v in cls.mandatory.items()},
-                   "optionals": {k: v.__name__ for k, v in cls.optionals.items()}}
+                   "mandatory": {k: v.__name__ for k, v in _tab(cls, "mandatory").items()},
+                   "optionals": {k: v.__name__ for k, v in _tab(cls, "optionals").items()}}
             # Extensions (a new optional argument, a new table entry) are legitimate and only observed; what must not
             # happen is that something the reference has disappears, changes class, changes order or stops being required.
             def subsequence(small, big):
@@ -189,9 +200,9 @@ def static_checks(acc):
             if not problems and any(now[p_] != frozen[p_] for p_ in ("params", "required", "mandatory", "optionals")):
                 acc.observe("command-tables-extended:%s.%s" % (lib, cls.__name__))
             acc.counters["frozen_tables_compared"] += 1
-        for name in list(cls.mandatory) + list(cls.optionals):
+        for name in list(_tab(cls, "mandatory")) + list(_tab(cls, "optionals")):
             if name not in params:
-                kind = "mandatory" if name in cls.mandatory else "optional"
+                kind = "mandatory" if name in _tab(cls, "mandatory") else "optional"
                 if kind == "mandatory":
                     acc.violation("mandatory-table-entry-not-an-argument:%s.%s.%s" % (lib, cls.__name__, name),
                                   "%s.%s lists %r as mandatory but its constructor has no such argument: it can be omitted silently" % (lib, cls.__name__, name),
@@ -253,7 +264,7 @@ def run_batch(b):
     classes = {(l, c.__name__): c for l, c in discover.message_classes()}
     for lib, cname in b["classes"]:
         cls = classes[(lib, cname)]
-        opt = [p.name for p in msggen.params_of(cls) if not (p.name in cls.mandatory and p.default is None)]
+        opt = [p.name for p in msggen.params_of(cls) if not (p.name in _tab(cls, "mandatory") and p.default is None)]
         subsets = []
         if len(opt) <= 6:
             for k in range(len(opt) + 1):
